@@ -82,7 +82,7 @@ def enumerated(index, rng):
     for fate in fates[1:]:
         children.append({'name': ids('t'), 'volatile': False, 'steps': fate_steps(fate, ids)})
     block = {'op': 'scope', 'n': None, 'catch': False, 'id': ids('b'), 'children': children,
-             'body': fate_steps(fates[0], ids)}
+             'body': fate_steps(fates[0], ids), 'manual': rng.random() < 0.25}
     return {'objects': {}, 'roots': [{'name': 'r0', 'steps': [block]}], 'start': 0, 'till': None}
 
 
@@ -140,7 +140,9 @@ def random_block(rng, ids, depth):
     if rng.random() < 0.2:
         notif = rng.choice([{'k': 'delay', 'd': 1}, {'k': 'ge', 't': 1.5}, {'k': 'eternity'}])
     return {'op': 'scope', 'n': notif, 'catch': rng.random() < 0.5, 'id': ids('b'),
-            'children': children, 'body': random_fate(rng, ids, depth)}
+            'children': children, 'body': random_fate(rng, ids, depth),
+            # (some blocks are driven through __aenter__ / __aexit__ by hand, like AsyncExitStack)
+            'manual': rng.random() < 0.2}
 
 
 def build(case):
